@@ -260,10 +260,19 @@ func (q *compatibilityQuery) Exec(ctx context.Context) (ret *promql.Result) {
 	ret = &promql.Result{
 		Value: promql.Vector{},
 	}
-	defer recoverEngine(q.engine.logger, q.expr, &ret.Err)
-
 	ctx, cancel := context.WithCancel(ctx)
 	defer cancel()
+	// Once the query is cancelled its operators may fail in arbitrary ways (the drain
+	// goroutines swallow batches, which misaligns the inputs of their consumers):
+	// whatever error comes out of a cancelled evaluation, report the cancellation.
+	// Runs after recoverEngine and before the deferred cancel above.
+	defer func() {
+		if ret.Err != nil && ctx.Err() != nil {
+			ret.Err = ctx.Err()
+		}
+	}()
+	defer recoverEngine(q.engine.logger, q.expr, &ret.Err)
+
 	q.cancelMu.Lock()
 	q.cancel = cancel
 	q.cancelMu.Unlock()
